@@ -13,7 +13,7 @@ RULE = (
     "dislocation-type regime(2) x all points within <=1 deviation of the default over (texture(8: one an int64 array, one in Fortran order, one a transposed view), "
     "volumes(3, one an int64 array), n_grains(5: 5,2,3,8,1), parameter set {default, M*=200 & chi=0.9, chi=0, M*=0}); EVERY k in "
     "{1e-16,1e-15,1e-12,1e-8,1e-4,1e-2,10,1e3} (quick tier: on the deviated roots k in {1e-16,1e-8,10,1e3}); ALL sequences to depth 2 (quick) / 3 (thorough) over "
-    "the 12 update letters (6 flows incl. time- and position-dependent x 2 strain increments) and one interval run backwards in time, plus "
+    "the 12 update letters (6 flows incl. time- and position-dependent x 2 strain increments) one interval run backwards in time and one gradient typed int64 (strain rate with half-integer entries), plus "
     "the partition letters (a span split into 1,2,5 updates), plus callables that hand out STORED "
     "array objects (constants and views into a piecewise-constant table; depth 2, 9 k incl. 1), plus the "
     "increments of F and of the texture over single updates of strain 5e-6 and 1e-7 for every k. After every update the twin's stored "
@@ -68,7 +68,7 @@ def gen_cases(tier, seed):
     return keys
 
 
-BACK_LETTERS = [("gen", -0.3)]  # an interval run backwards in time
+BACK_LETTERS = [("gen", -0.3), ("i64_ss1", 0.6)]  # an interval run backwards in time; an int64-typed gradient
 STORED_LETTERS = [("st_gen", 0.3), ("st_ss", 0.3), ("st_table", 0.6)]
 
 
